@@ -50,7 +50,14 @@ func H_C18_Exact(v *verifrt.T) {
 	f := NewFileIO(root, nil, nil, false)
 	var recs []*vRec
 	colon := false
+	// the process may restart between two records (a new logger appends to
+	// the same day file) and before the look-up
+	restartBefore := v.Choose("restart-before-record", nrec+1) // 0: none, k: before record k (1-based; record 1 = no earlier records)
 	for k := 0; k < nrec; k++ {
+		if restartBefore == k+1 && k > 0 {
+			f = NewFileIO(root, nil, nil, false)
+			v.Reach("restarted")
+		}
 		name := v.Bytes("name", 1+v.Choose("name-len", l))
 		hash := v.Bytes("hash", 2)
 		c18noColon(v, hash)
